@@ -55,3 +55,24 @@ Example C07_example :
                ACallerEnq; ALoopDrain; ACallerWait; ALoopFinish; ACallerRetFin] = Some s
             /\ cp s = CRet [EUser 7] /\ ~ In (EvStart 2) (log s).
 Proof. eexists. split; [vm_compute; reflexivity|]. split; [reflexivity|]. cbn. intuition discriminate. Qed.
+
+(* ---- the generated code (Layer 2, FlowOpModel): the same two clauses for the jobs of a
+   generated Flow or Parallel, for every execution the scheduler can produce. Names of the
+   two layers clash (jdeps, run, step): Layer 2 is used qualified. *)
+From CffVerif Require FlowOpModel FlowOpProofs.
+
+(* nothing transitively downstream of a job that failed, or never ran, is ever run *)
+Theorem C07_generated_downstream :
+  forall f sc, FlowOpProofs.unique_providers f ->
+  forall e x d, FlowOpProofs.reach f sc e -> FlowOpProofs.depends_plus f x d ->
+    (~ In d (FlowOpModel.ran e) \/
+     exists efd er, In (d, efd) (FlowOpModel.xlog e) /\ FlowOpModel.je_res efd = FlowOpModel.JFail er) ->
+    ~ In x (FlowOpModel.ran e).
+Proof. exact FlowOpProofs.failed_starves_downstream. Qed.
+Print Assumptions C07_generated_downstream.
+
+(* cff.Results targets are written only when no job failed *)
+Theorem C07_generated_results_untouched :
+  forall f e, FlowOpModel.xfail e <> [] -> FlowOpModel.results f e = None.
+Proof. exact FlowOpProofs.results_untouched_on_failure. Qed.
+Print Assumptions C07_generated_results_untouched.
